@@ -1,7 +1,8 @@
 (** C17 — combinators and sum/product data types obey their equations for ALL payloads.
     Each law is a theorem about the GENERATED constant, for arbitrary terms x, y, z, f, d
     (established on open terms by the certified evaluator, instantiated by substitutivity). *)
-From LC Require Import Spec.NorEval Spec.Encodings Gen.Terms Proofs.Laws.
+From Coq Require Import List. Import ListNotations.
+From LC Require Import Spec.NorEval Spec.Encodings Model.Convert Gen.Terms Proofs.Laws Proofs.Convert Proofs.Tuples.
 
 Theorem C17_combinators : forall x y z,
   red (App lc_combinators_I x) x /\
@@ -94,9 +95,38 @@ Proof.
   - apply nand_table. - apply imply_table. - apply not_table. - apply if_else_law.
 Qed.
 
+(** pi!(i, n) selects the i-th component of tuple!(x1, .., xn), for ALL arities n, ALL 1 <= i <= n and ALL payload
+    terms (the macros are modelled as the loops they expand to; payloads lifted over the tuple's binder, which for
+    closed payloads is the identity) *)
+Theorem C17_tuple_pi : forall x xs i d, 1 <= i <= length (x :: xs) ->
+  red (App (pi_macro i (length (x :: xs))) (tuple_macro (shift 1 0 x) (map (shift 1 0) xs))) (nth (i - 1) (x :: xs) d).
+Proof. intros x xs i d Hi. rewrite tuple_macro_spec. apply (pi_tuple (x :: xs) i d Hi). Qed.
+Theorem C17_tuple_pi_closed : forall x xs i d, forallb closed (x :: xs) = true -> 1 <= i <= length (x :: xs) ->
+  red (App (pi_macro i (length (x :: xs))) (tuple_macro x xs)) (nth (i - 1) (x :: xs) d).
+Proof. intros x xs i d Hc Hi. rewrite tuple_macro_spec. apply pi_tuple_closed; auto. Qed.
+
+(** the From conversions of closed payloads are the normal forms of the constructor applications *)
+Theorem C17_from : forall a b, closed a = true -> closed b = true ->
+  red (App (App lc_pair_pair a) b) (into_pair a b) /\
+  red (App lc_option_some a) (into_option (Some a)) /\ lc_option_none = into_option None /\
+  red (App lc_result_ok a) (into_result (inl a)) /\ red (App lc_result_err a) (into_result (inr a)) /\
+  (nfb a = true -> nfb b = true ->
+     nfb (into_pair a b) = true /\ nfb (into_option (Some a)) = true /\
+     nfb (into_result (inl a)) = true /\ nfb (into_result (inr a)) = true) /\
+  (forall c : bool, bool_t c = (if c then lc_boolean_tru else lc_boolean_fls)).
+Proof.
+  intros a b Ca Cb.
+  destruct (from_pair a b Ca Cb) as [P1 P2]. destruct (from_option a Ca) as (O1 & O2 & O3).
+  destruct (from_result a Ca) as (R1 & R2 & R3).
+  repeat split; auto; try (apply R3; auto); apply from_bool.
+Qed.
+
 Print Assumptions C17_combinators.
 Print Assumptions C17_fixed_points.
 Print Assumptions C17_pair.
 Print Assumptions C17_option.
 Print Assumptions C17_result.
 Print Assumptions C17_booleans.
+Print Assumptions C17_tuple_pi.
+Print Assumptions C17_tuple_pi_closed.
+Print Assumptions C17_from.
